@@ -84,7 +84,10 @@ def dec_outcome(l):
 # --------------------------------------------------------------------------- matcher vs re
 def matcher_correspondence(res, paths):
     from digital_rf import list_drf, watchdog_drf
-    items = re2gallina.collect()
+    try:
+        items = re2gallina.collect()
+    except re2gallina.Unsupported:
+        items = re2gallina.collect(strict=False)      # already recorded by regenerate(); keep searching
     rng = res.rng
     alphabet = "0123456789@./-_Ttmprfh5 \nxXA:"
     subjects = set()
